@@ -1,4 +1,5 @@
 import AtreeModel.StorageOps
+import AtreeModel.Gen.Consts
 import AtreeModel.Replay.Common
 /-
   Replays the storage stream on the storage state machine (slabs and registers are version
@@ -104,6 +105,39 @@ def applyOp (s : StorState) (name : String) (fs : List (String × String)) (line
     { s' with pending := [s'.viewLine, s'.cntLine] }
   | "preload" => run (.preload (parseIDs ((fget fs "ids").getD "")))
   | "genid" => run (.genID ((fnat fs "addr").getD 0))
+  -- D6: ledger calls other than Store/Remove that FAIL.  These are not operations of the model
+  -- (`Op`); the replayer states what the code must show: the failure surfaces as an external error
+  -- and leaves no trace in the storage (state unchanged, so the following VIEW/CNT lines and every
+  -- later identifier allocation must still agree).
+  | "failget" =>
+    -- Retrieve (mode 0) / RetrieveIgnoringDeltas (mode 1, 2) with the ledger read of `id` failing:
+    -- the read is reached only when neither the write set (mode 0) nor the cache serves the identifier
+    let mode := (fnat fs "mode").getD 0
+    let hit : Option (Option Nat) :=
+      match (if mode == 0 then AList.find? s.st.deltas id else none) with
+      | some v => some v
+      | none => AList.find? s.st.cache id
+    let obs : Obs Nat := match hit with
+      | some v => .slab v
+      | none => .err .external
+    { s with pending := [obsStr obs, s.viewLine, s.cntLine] }
+  | "failgenid" =>
+    -- GenerateSlabID with a failing ledger allocation: temporary identifiers do not reach the ledger
+    let a := (fnat fs "addr").getD 0
+    if a == 0 then run (.genID 0)
+    else { s with pending := [obsStr (.err .external : Obs Nat), s.viewLine, s.cntLine] }
+  | "failpreload" =>
+    -- BatchPreload with the ledger read of `fail` failing.  Fewer than minCountForBatchPreload
+    -- identifiers: the loop has cached the identifiers before the failing one (or stopped earlier at an
+    -- undecodable register); otherwise the reads happen before any result is processed: nothing cached.
+    let ids := parseIDs ((fget fs "ids").getD "")
+    let fail := ((fget fs "fail").bind parseID).getD SlabID.undef
+    if ids.length < Gen.PersistentSlabStorage_BatchPreload_minCountForBatchPreload then
+      let (st', e) := s.st.batchPreload natCodec (ids.takeWhile (fun i => i != fail))
+      let s' := { s with st := st' }
+      let obs : Obs Nat := match e with | some e => .err e | none => .err .external
+      { s' with pending := [obsStr obs, s'.viewLine, s'.cntLine] }
+    else { s with pending := [obsStr (.err .external : Obs Nat), s.viewLine, s.cntLine] }
   | "corrupt" =>
     let s' := { s with st := { s.st with base := AList.insert s.st.base id verGarbage } }
     { s' with pending := [s'.viewLine, s'.cntLine] }
